@@ -196,78 +196,25 @@ TIERS = {
     "quick": (Q_SHAPES, ["delegateV2", "crossChain"], "sample"),
     "thorough": (T_SHAPES, sorted(VARIANTS), "all"),
 }
-# Scenario of a known candidate finding (bridgeCall converts ERC-20 -> coin through keeper-level EVM calls
-# that commit a NESTED state DB while the calling transaction's own pending writes to the same token live
-# in the outer state DB): a transaction that writes the token's storage by in-frame EVM code (plain
-# transfer, or crossChain / cancelSendToExternal whose ERC-20 legs run in the calling EVM) AND calls
-# bridgeCall.  Those cases are checked in a separate pass (DESIGN section 4): the main pass must hold without
-# them; a violation in the scenario pass is printed as KNOWN-FINDING iff known_findings.json lists SCENARIO_ID.
-SCENARIO_ID = "C09-bridgecall-nested-statedb"
-INFRAME_TOKEN_WRITERS = {"crossChain", "cancelSendToExternal"}
+# Scenario of a known finding.  bridgeCall (ERC-20 -> coin, EvmToBaseCoin) and cancelSendToExternal (refund
+# coin -> ERC-20, HookOutgoingRefund) convert through KEEPER-LEVEL EVM calls that create and commit a NESTED
+# state DB inside the native action, while the calling transaction's own pending writes to the same token
+# contract live in the OUTER state DB and overwrite the nested commit at the end: after an in-frame token
+# write by the same holder (plain transfer, or crossChain whose ERC-20 legs run in the calling EVM) the
+# conversion's ERC-20 side is lost although its Cosmos side is persisted.  Cases that can reach it are checked
+# in a separate pass (DESIGN section 4): the main pass must hold without them; a violation in the scenario
+# pass is printed as KNOWN-FINDING iff known_findings.json lists SCENARIO_ID, as VIOLATION otherwise.
+SCENARIO_ID = "C09-nested-statedb-token-conversion"
+NESTED_CONVERTERS = {"bridgeCall", "cancelSendToExternal"}
+INFRAME_TOKEN_WRITERS = {"crossChain"}
 
 
 def in_scenario(case):
     v = ALL_CASES[case]
     ms = set(v["methods"])
-    if "bridgeCall" not in ms:
+    if not (ms & NESTED_CONVERTERS):
         return False
     return uses_evm(SHAPES[v["shape"]]) or bool(ms & INFRAME_TOKEN_WRITERS)
-
-
-def tier_cases(tier):
-    shapes, variants, _ = TIERS[tier]
-    return sorted(case_id(s, v) for s in shapes for v in variants)
-
-
-def consts(ids):
-    return dict(ProgId=ids, MaxNat=MAXNAT, MaxEvm=MAXEVM, MaxTx=1)
-
-
-def harness_const(ids, cuts_file, mode):
-    # the shapes themselves are compiled into the harness (harness/frames/cases.json, written by --emit)
-    return dict(chain="x", ids=ids, cuts=cuts_file, cutmode=mode)
-
-
-def emit_cases():
-    return json.dumps({c: dict(frames=v["frames"], methods=v["methods"]) for c, v in sorted(ALL_CASES.items())}, indent=0, sort_keys=True) + "\n"
-
-
-GENERATED = {os.path.join(vlib.SPEC, "FramesMC.tla"): emit_mc, os.path.join(vlib.HARNESS, "frames", "cases.json"): emit_cases}
-
-
-def check_generated():
-    for path, fn in GENERATED.items():
-        if not os.path.exists(path) or open(path).read() != fn():
-            raise Infra("%s is out of date: run python3 bin/spec_frames.py --emit" % path)
-
-
-def profile(work, binary, ids, mode, shards):
-    """pre-pass: measures, for every case, the out-of-gas classes; returns ({case: [pattern]}, cuts file)."""
-    t0 = time.time()
-    hc = json.dumps(harness_const(ids, "", mode))
-    procs = []
-    for i in range(shards):
-        held = vlib.acquire_slots(1)
-        out = work.path("profile-%d.json" % i)
-        p = vlib.run_harness(work, binary, "TestProfile", dict(VERIF_CONST=hc, VERIF_SHARD=i, VERIF_SHARDS=shards,
-                                                               VERIF_PROFILE_OUT=out), work.path("profile-%d.log" % i))
-        procs.append((p, held, out, i))
-    table = {}
-    for p, held, out, i in procs:
-        rc = p.wait()
-        vlib.release_slots(held)
-        if rc != 0 or not os.path.exists(out):
-            raise Infra("profiling shard %d failed:\n%s" % (i, open(work.path("profile-%d.log" % i), errors="replace").read()[-3000:]))
-        table.update(json.load(open(out)))
-    missing = [c for c in ids if c not in table]
-    if missing:
-        raise Infra("profiling produced no result for %s" % missing[:5])
-    cuts_file = work.path("frames-cuts.json")
-    json.dump(table, open(cuts_file, "w"))
-    classes = {c: [cl["oog"] for cl in table[c]["classes"]] for c in ids}
-    nl = sum(len(cl["L"]) for c in ids for cl in table[c]["classes"])
-    log("profiling: %d cases, %d out-of-gas classes, %d gas limits, %.0fs" % (len(ids), sum(len(v) for v in classes.values()), nl, time.time() - t0))
-    return classes, cuts_file, nl
 
 
 def known_scenario():
